@@ -9,6 +9,7 @@ import (
 	"os"
 	"sort"
 	"strconv"
+	"strings"
 	"time"
 
 	"github.com/cbeuw/Cloak/internal/vrt"
@@ -132,12 +133,32 @@ func Emit(r *Report) {
 	os.Stdout.Write(append(append([]byte("REPORT "), b...), '\n'))
 }
 
+// Sig is the signature known_findings.txt matches on: scenario, its parameters and the head of the
+// failed oracle clause. A known finding therefore names one driver configuration and one clause; the
+// same clause failing in another configuration, or another clause in the same one, is still reported.
+func Sig(j Job, clause string) string {
+	if i := strings.Index(clause, ":"); i >= 0 {
+		clause = clause[:i]
+	}
+	ks := make([]string, 0, len(j.Params))
+	for k := range j.Params {
+		ks = append(ks, k)
+	}
+	sort.Strings(ks)
+	var ps []string
+	for _, k := range ks {
+		ps = append(ps, k+"="+j.Params[k])
+	}
+	s := j.Scenario + "{" + strings.Join(ps, ",") + "}|" + clause
+	return strings.ReplaceAll(s, " ", "_")
+}
+
 // SigFn maps a violation to its signature (what known_findings.txt matches on).
 type SigFn func(v *vrt.Violation, r *vrt.Result) string
 
 // RunSched explores a scheduled scenario and builds the report, including the determinism
 // self-check (first execution and every reported violation are replayed twice).
-func RunSched(c *Ctx, sc *vrt.Scenario, sig func(v *vrt.Violation) string) *Report {
+func RunSched(c *Ctx, sc *vrt.Scenario, _ func(v *vrt.Violation) string) *Report {
 	rep := &Report{Job: c.Job, Engine: "sched-dfs", Outcomes: map[string]int64{}}
 	if sc.Opt.Seed == 0 {
 		sc.Opt.Seed = c.Seed
@@ -156,8 +177,7 @@ func RunSched(c *Ctx, sc *vrt.Scenario, sig func(v *vrt.Violation) string) *Repo
 		rep.CapHit = "replay"
 		rep.Outcomes[r.Status.String()+":"+r.Outcome] = 1
 		if clause != "" {
-			v := &vrt.Violation{Clause: clause, Msg: r.Msg, Status: r.Status.String(), Choices: c.Replay.Choices}
-			rep.Violations = append(rep.Violations, Violation{Clause: clause, Sig: sig(v), Msg: r.Msg, Status: r.Status.String(), Choices: c.Replay.Choices, Trace: r.Trace})
+			rep.Violations = append(rep.Violations, Violation{Clause: clause, Sig: Sig(c.Job, clause), Msg: r.Msg, Status: r.Status.String(), Choices: c.Replay.Choices, Trace: r.Trace})
 		}
 		rep.Samples = append(rep.Samples, map[string]any{"trace": r.Trace})
 		return rep
@@ -209,7 +229,7 @@ func RunSched(c *Ctx, sc *vrt.Scenario, sig func(v *vrt.Violation) string) *Repo
 		if rep.CapHit == "" {
 			rep.CapHit = "stopped at first violation"
 		}
-		rep.Violations = append(rep.Violations, Violation{Clause: v.Clause, Sig: sig(v), Msg: v.Msg, Status: v.Status, Choices: v.Choices, Trace: v.Trace, Bound: v.Bound, Sites: vrt.SharedSiteList()})
+		rep.Violations = append(rep.Violations, Violation{Clause: v.Clause, Sig: Sig(c.Job, v.Clause), Msg: v.Msg, Status: v.Status, Choices: v.Choices, Trace: v.Trace, Bound: v.Bound, Sites: vrt.SharedSiteList()})
 	}
 	rep.Replays = e.Stats.Replays
 	return rep
